@@ -1124,10 +1124,9 @@ class MatlabWrapper(CheckMixin, FormatMixin):
         # e.g. gtsam.Class.Enum.A
         for enum in instantiated_class.enums:
             enum_text = self.wrap_enum(enum)
-            if namespace_name != '':
-                submodule = f"+{namespace_name}/"
-            else:
-                submodule = ""
+            # One package per enclosing namespace, then the class package.
+            submodule = "".join(
+                f"+{x}/" for x in instantiated_class.namespaces()[1:])
             submodule += f"+{instantiated_class.name}"
             self.content.append((submodule, [enum_text]))
 
